@@ -7,7 +7,7 @@ warnings.simplefilter("ignore", SyntaxWarning)
 
 ID = "C20"
 SOURCES = ["dagrt/codegen/utils.py", "dagrt/codegen/python.py", "dagrt/codegen/fortran.py"]
-RULE = ("exhaustive: every sequence of <= 4 tokens from {x, yy, 'a b', f('p q'), =, zzzzzzzz} x widths 6..24 x levels 0..2 x "
+RULE = ("exhaustive: every sequence of <= 4 tokens from {x, yy, 'a b', f('p q'), =, zzzzzzzz, 'c\\\\', 'i\\'s'} x widths 6..24 x levels 0..2 x "
         "{python, fortran}; random: 1-14 tokens (identifiers, operators, quoted strings with spaces in both quote kinds, strings "
         "glued to '(' or '=', escaped quotes, doubled quotes, over-long tokens, occasional unterminated quote) separated by random "
         "whitespace, levels 0-6, widths 8-100; random valid Python statements with string arguments. Compared with the Lean model: "
@@ -17,7 +17,7 @@ RULE = ("exhaustive: every sequence of <= 4 tokens from {x, yy, 'a b', f('p q'),
         "wrapped and unwrapped. Non-trivial: the line was actually wrapped (>= 2 output lines).")
 TRUSTED = ["CPython's str (code points) vs. Lean's List Char; Python's own tokenizer/ast for the syntax-tree comparison"]
 
-ALPHA = ["x", "yy", "'a b'", "f('p q')", "=", "zzzzzzzz"]
+ALPHA = ["x", "yy", "'a b'", "f('p q')", "=", "zzzzzzzz", "'c\\\\'", "'i\\'s'"]
 
 
 def rand_token(rng):
@@ -34,8 +34,10 @@ def rand_token(rng):
         return q + body + q
     if r < 0.85:
         return rng.choice(["f(", "k=", "self.g(h(", "x["]) + q + body + q + rng.choice([")", "),", "", "]"])
-    if r < 0.9:
+    if r < 0.88:
         return q + body + "\\" + q + " z" + q          # escaped quote (python) / closes early (fortran)
+    if r < 0.91:
+        return q + body + "\\" * rng.choice([2, 2, 3, 4]) + q   # backslashes before the closing quote
     if r < 0.94:
         return q + body + q + q + "d e" + q            # doubled quote
     if r < 0.97:
